@@ -106,6 +106,10 @@ struct H {
 static HIST: Mutex<Vec<H>> = Mutex::new(Vec::new());
 static TURN: AtomicUsize = AtomicUsize::new(0);
 static ENTERED_ANY: Mutex<Vec<(usize, u64)>> = Mutex::new(Vec::new());
+thread_local! {
+    /// per thread: (replica, slot, uid) of the spans this thread entered
+    static ENTERED_SLOT: std::cell::RefCell<Vec<(usize, usize, u64)>> = const { std::cell::RefCell::new(Vec::new()) };
+}
 const NSLOTS: usize = 6;
 
 struct SlotE {
@@ -183,6 +187,7 @@ fn exec_step(rep: usize, gi: usize, t: usize, s: &Value, slots: &Mutex<Vec<Optio
                             d.enter(&id);
                             entered.push((e.uid, id, d));
                             ENTERED_ANY.lock().unwrap().push((rep, e.uid));
+                            ENTERED_SLOT.with(|m| m.borrow_mut().push((rep, slot, e.uid)));
                         }
                         _ => h.applied = false,
                     }
@@ -194,14 +199,15 @@ fn exec_step(rep: usize, gi: usize, t: usize, s: &Value, slots: &Mutex<Vec<Optio
         "exit" => {
             // exit the span held in `slot` (the generator keeps enter/exit well nested); a span that is
             // disabled under this replica was never entered, so this is a no-op there
-            let uid_in_slot = slots.lock().unwrap()[slot].as_ref().map(|e| e.uid);
-            let pos = uid_in_slot.and_then(|u| entered.iter().rposition(|x| x.0 == u));
+            // (by the slot it was entered from: its handle may have been dropped meanwhile)
+            let pos = ENTERED_SLOT.with(|m| m.borrow().iter().rposition(|x| x.0 == rep && x.1 == slot).map(|i| m.borrow()[i].2)).and_then(|u| entered.iter().rposition(|x| x.0 == u));
             match pos {
                 Some(p) => {
                     let (u, id, d) = entered.remove(p);
                     h.uid = u;
                     d.exit(&id);
                     ENTERED_ANY.lock().unwrap().retain(|x| *x != (rep, u));
+                    ENTERED_SLOT.with(|m| m.borrow_mut().retain(|x| !(x.0 == rep && x.2 == u)));
                 }
                 None => h.applied = false,
             }
@@ -336,7 +342,8 @@ impl Engine for DirectiveEngine {
                     }
                 }
                 63..=68 => {
-                    if gen_stack.iter().any(|v| v.contains(&slot)) {
+                    // (while F13 is open, never drop a handle whose span is entered somewhere)
+                    if finding_open("F13") && gen_stack.iter().any(|v| v.contains(&slot)) {
                         json!({"t": t, "op": "event", "site": rng.below(20)})
                     } else {
                         json!({"t": t, "op": "drop", "slot": slot})
